@@ -432,3 +432,80 @@ def miter_template_rule(chk, repo, rule, rel="tx.py", qual="miter"):
     chk.ob(rule + ".gate-algebra", f"{rel}::{qual}::collector(comparator(...))", bad is None, file=rel, func=qual, line=collector[0].lineno,
            fact=bad or {"comparator": ctype, "collector_by_endpoint_count": arms}, expect="collector over comparators == 'some endpoint differs' for 1, 2 and 3 endpoints")
     return True
+
+
+# ---- recursion along the structure of the input ----------------------------------------------------------------------
+_NEIGHBOUR_WORDS = {"fanin", "fanout", "predecessors", "successors", "pred", "succ", "adj", "_pred", "_succ", "_adj", "neighbors", "in_edges", "out_edges", "edges",
+                    "transitive_fanin", "transitive_fanout", "ancestors", "descendants"}
+
+
+def path_recursion_rule(chk, repo, rule, funcs):
+    """
+    `funcs`: [(file, qualname)].  For each function (and the functions nested in it): a call to itself whose argument comes from a
+    loop / comprehension over the *neighbours* of a node (fanin / fanout / predecessors / successors ...), or over a container looked
+    up by one of its own parameters (`for operand in gates[net]: define(operand)`), makes the call depth follow the depth of the
+    circuit or netlist: CPython stops at about 1000 frames, so a chain of 1200 buffers raises RecursionError where the property
+    promises a result.  Recursion over anything else is not judged (a note).  One obligation per function.
+    """
+    n = 0
+    for rel, qual in funcs:
+        fi = repo.funcs.get((rel, qual))
+        if fi is None:
+            raise AnalysisError(f"anchor {qual} not found", rel)
+        found = []
+        other = []
+        defs = [fi.node] + [x for x in ast.walk(fi.node) if isinstance(x, ast.FunctionDef) and x is not fi.node]
+        for d in defs:
+            params = {a.arg for a in d.args.posonlyargs + d.args.args + d.args.kwonlyargs}
+            pm = parents_map(d)
+            for c in ast.walk(d):
+                if not isinstance(c, ast.Call):
+                    continue
+                callee = c.func.id if isinstance(c.func, ast.Name) else (c.func.attr if isinstance(c.func, ast.Attribute) and dotted(c.func.value) in ("self", "cls") else None)
+                if callee != d.name:
+                    continue
+                # the call must be lexically inside d itself, not inside a function nested in d that shadows the name
+                owner = next((p for p in enclosing(c, pm, (ast.FunctionDef, ast.Lambda))), d)
+                if owner is not d and isinstance(owner, ast.FunctionDef):
+                    continue
+                arg_names = {x.id for a in list(c.args) + [k.value for k in c.keywords] for x in ast.walk(a) if isinstance(x, ast.Name)}
+                along = False
+                for loop in enclosing(c, pm, (ast.For, ast.ListComp, ast.SetComp, ast.GeneratorExp, ast.DictComp)):
+                    gens = [(loop.target, loop.iter)] if isinstance(loop, ast.For) else [(g.target, g.iter) for g in loop.generators]
+                    for target, it in gens:
+                        tnames = {x.id for x in ast.walk(target) if isinstance(x, ast.Name)}
+                        if not (tnames & arg_names):
+                            continue
+                        words = {x.attr for x in ast.walk(it) if isinstance(x, ast.Attribute)} | {x.id for x in ast.walk(it) if isinstance(x, ast.Name)}
+                        keyed = any(isinstance(x, ast.Subscript) and any(isinstance(y, ast.Name) and y.id in params for y in ast.walk(x.slice)) for x in ast.walk(it)) or \
+                            any(isinstance(x, ast.Call) and isinstance(x.func, ast.Attribute) and x.func.attr == "get" and any(isinstance(y, ast.Name) and y.id in params for a in x.args for y in ast.walk(a)) for x in ast.walk(it))
+                        if words & _NEIGHBOUR_WORDS or keyed:
+                            along = True
+                (found if along else other).append((d.name, c.lineno, norm(c)[:80]))
+        n += 1
+        if other and not found:
+            chk.note(f"{qual}: recursive call(s) {sorted({o[0] for o in other})} not over the neighbours of a node - not judged")
+        chk.ob(rule, f"{qual}::call depth independent of the depth of the circuit", not found, file=rel, func=qual, line=found[0][1] if found else fi.node.lineno,
+               fact={"recursive_calls_along_the_graph": [{"function": a, "line": b, "call": c_} for a, b, c_ in found[:4]]} if found else {"recursive_calls_along_the_graph": 0},
+               expect="no call to itself per step along fanin / fanout (CPython's frame limit turns a chain of about 1000 nodes into RecursionError); iterate with an explicit work list or in topological order")
+    return n
+
+
+# the functions each property is about (its anchors); C12 applies the rule itself to its longer list
+PATH_RECURSION_ANCHORS = {
+    "C01": [("sat.py", "cnf"), ("sat.py", "solve"), ("sat.py", "construct_solver")],
+    "C03": [("io.py", "circuit_to_verilog"), ("io.py", "verilog_to_circuit")],
+    "C04": [("tx.py", "miter")],
+    "C05": [("tx.py", "limit_fanin"), ("tx.py", "limit_fanout"), ("tx.py", "insert_registers")],
+    "C06": [("circuit.py", "Circuit.add_subcircuit"), ("circuit.py", "Circuit.fill_blackbox"), ("tx.py", "strip_blackboxes")],
+    "C08": [("sat.py", "model_count"), ("props.py", "signal_probability")],
+    "C09": [("tx.py", "unroll"), ("tx.py", "sequential_unroll")],
+    "C10": [("tx.py", "ternary")],
+    "C11": [("tx.py", "sensitivity_transform"), ("tx.py", "sensitization_transform"), ("props.py", "sensitivity"), ("props.py", "influence")],
+    "C14": [("parsing/fast_verilog.py", "fast_parse_verilog_netlist")],
+    "C15": [("io.py", "bench_to_circuit"), ("io.py", "circuit_to_bench")],
+    "C16": [("circuit.py", "Circuit.remove_unloaded")],
+    "C17": [("tx.py", "supergates")],
+    "C18": [("tx.py", "acyclic_unroll")],
+    "C20": [("utils.py", "lint")],
+}
